@@ -150,4 +150,28 @@ var props = map[string]Prop{
 			"sources that use __subquery names themselves, repeat an `as` name, or call a pass-through function named like an SQL keyword are excluded (counted)",
 		},
 	},
+	"C13": {
+		Stages: []Stage{
+			{Name: "rules", Test: "TestC13Rules", Shards: [2]int{4, 16}, Checks: [2]int{2500, 40000}, Timeout: [2]time.Duration{10 * min, 60 * min}},
+			{Name: "eitheror", Test: "TestC13EitherOr", Shards: [2]int{2, 16}, Checks: [2]int{5000, 60000}, SeedOffset: 1, Timeout: [2]time.Duration{10 * min, 60 * min}},
+			{Name: "soups", Test: "TestC13Soups", Shards: [2]int{4, 16}, SeedOffset: 2, Timeout: [2]time.Duration{10 * min, 60 * min}},
+			{Name: "fuzz", Fuzz: "FuzzC13EitherOr", Shards: [2]int{0, 1}, FuzzTime: [2]time.Duration{0, 3 * min}},
+		},
+		Rule: "rules: rapid-generated rule-abiding programs (all operators, nested joins, lets, built-ins with the right arity at every depth, $left/$right inside join conditions, known join kinds, integer/non-literal row counts) must compile; then exactly one rule violation is planted into the same program at a rapid-chosen expression slot of any depth (query, let value, join condition, right-hand pipeline) and it must be rejected: no tabular statement, a second tabular statement, a let value with an unbound / quoted / qualified identifier, each of the eleven built-ins with every wrong arity 0..4, $left / $right outside a join condition, seven unknown join kinds, a float or string literal row count; eitheror/soups/fuzz: random bytes, token soups, grammar programs, corruptions and every short token sequence must yield (non-empty SQL, nil) or (empty, error). Non-trivial = every planted case and every rule-abiding twin; distinct = plant kind x placement class x program shape.",
+		Assumptions: []string{
+			"render property values are not expression slots (they are not compiled as expressions); lets after the query are not planted (the property says they have no effect)",
+		},
+	},
+	"C04": {
+		Stages: []Stage{
+			{Name: "fillings", Test: "TestC04Fillings", Shards: [2]int{4, 16}, Checks: [2]int{2500, 40000}, Timeout: [2]time.Duration{10 * min, 60 * min}},
+			{Name: "fuzz", Fuzz: "FuzzC04Fill", Shards: [2]int{0, 1}, FuzzTime: [2]time.Duration{0, 4 * min}},
+		},
+		Rule: "rapid-generated program skeletons (all operators, joins, lets) whose every literal and name occurrence is a hole: string literals in every expression position (predicates, in-lists, index keys, let values, join conditions, render values), quoted names (tables, column references and their parts, aliases, `as` names, render chart/property names and identifier values), unquoted names, numeric literals (integer spellings in row-count positions); fillings from a hostile alphabet (all three quotes, backslash, - / * ; ( ) , NUL TAB LF CR space, non-ASCII, invalid UTF-8, braces) of length 0-12, injection constants, and every number spelling (leading zeros, hex, leading/trailing dot, exponent, 25 digits, 1e400); thorough adds a native fuzz target that fills eight fixed skeletons with fuzzer-chosen bytes. Oracle (metamorphic + decode): the skeleton is compiled with unique benign markers and with the hostile filling; both outputs are lexed under standard and under ClickHouse quoting rules: no unterminated token or comment, identical token-kind sequences, every token not at a marker position byte-identical; under ClickHouse rules each marker-position token decodes to exactly the PQL value of its hole (strings after escape processing, names after backtick un-doubling, numbers as equal rationals); derived names (source slices of unnamed columns, render_prop_<name>) decode to the printer's slice / the composed name. Non-trivial = at least one hole holds a quote, backslash, comment marker, semicolon, NUL, newline or non-ASCII byte; distinct = skeleton shape x hole count x hostile class set.",
+		Assumptions: []string{
+			"ClickHouse's documented lexical rules for '...', \"...\" and `...` (backslash escapes, doubled quotes) are the target dialect's rules",
+			"parameter snippets and pass-through function names are not holes; a number used as a render property value is not asserted (it is rendered as a string)",
+			"let-binding names are not holes (renaming them changes scoping, i.e. structure)",
+		},
+	},
 }
